@@ -172,6 +172,21 @@ pub fn run(data: &[u8], ctx: &mut Ctx) -> Outcome {
     check!(ctx, cont.is_empty() == atts.is_empty(), "container", "C19/container", "Attachments::is_empty wrong");
     let rebuilt = nopanic!(ctx, cont.add_to_envelope(base.clone()), "container", "C19/container");
     check!(ctx, rebuilt.to_cbor_data() == e.to_cbor_data(), "container", "C19/container", "Attachments round trip does not rebuild the envelope");
+    // writing the container onto an envelope that already holds (some of) its attachments adds nothing twice
+    let onto_holder = nopanic!(ctx, cont.add_to_envelope(e.clone()), "container", "C19/container/onto-holder");
+    check!(ctx, onto_holder.to_cbor_data() == e.to_cbor_data(), "container", "C19/container/onto-holder", "Attachments::add_to_envelope onto an envelope that already holds these attachments changed it ({} attachments afterwards)", onto_holder.attachments().map(|x| x.len()).unwrap_or(9999));
+    let twice = nopanic!(ctx, cont.add_to_envelope(rebuilt.clone()), "container", "C19/container/onto-holder");
+    check!(ctx, twice.to_cbor_data() == e.to_cbor_data(), "container", "C19/container/onto-holder", "Attachments::add_to_envelope applied twice differs from once");
+    {
+        // a container with one more attachment, written onto the holder of the others
+        let mut more = nopanic!(ctx, Attachments::try_from_envelope(&e).map_err(|x| x.to_string()), "container", "C19/container/onto-holder").unwrap_or_else(|_| Attachments::new());
+        more.add("one more payload", "org.verif.more", Some("urn:more"));
+        let grown = nopanic!(ctx, more.add_to_envelope(e.clone()), "container", "C19/container/onto-holder");
+        let direct = e.add_attachment("one more payload", "org.verif.more", Some("urn:more"));
+        check!(ctx, grown.to_cbor_data() == direct.to_cbor_data(), "container", "C19/container/onto-holder", "a container holding the envelope's attachments plus one, written onto that envelope, differs from add_attachment of the one");
+        let n = nopanic!(ctx, grown.attachments().map(|x| x.len()).map_err(|x| x.to_string()), "container", "C19/container/onto-holder");
+        check!(ctx, n == Ok(want_all.len() + 1), "container", "C19/container/onto-holder", "attachments() after writing the grown container: {:?}, expected {}", n, want_all.len() + 1);
+    }
 
     // ---- malformed
     if src.chance(110) {
